@@ -558,6 +558,22 @@ var rR16t = RuleRef{Name: "R16t", Doc: "sibling agreement of the WAL scanners: e
 			continue
 		}
 		decodes, cmpEOF, cmpUEOF := false, false, false
+		// the function itself and the error classifiers it calls (first-party predicates over an error value)
+		bodies := []*ssa.Function{fn}
+		for _, b := range fn.Blocks {
+			for _, in := range b.Instrs {
+				if call, ok := in.(*ssa.Call); ok {
+					if cf := callee(call); cf != nil && cf.Pkg == fn.Pkg && cf.Blocks != nil && cf != fn && cf.Signature.Results().Len() == 1 && isBoolType(cf.Signature.Results().At(0).Type()) {
+						for _, p := range cf.Params {
+							if isErrorType(p.Type()) {
+								bodies = append(bodies, cf)
+								break
+							}
+						}
+					}
+				}
+			}
+		}
 		for _, b := range fn.Blocks {
 			for _, in := range b.Instrs {
 				if call, ok := in.(*ssa.Call); ok && callName(call) == "decode" {
@@ -565,36 +581,44 @@ var rR16t = RuleRef{Name: "R16t", Doc: "sibling agreement of the WAL scanners: e
 						decodes = true
 					}
 				}
-				bo, ok := in.(*ssa.BinOp)
-				if !ok || (bo.Op != token.EQL && bo.Op != token.NEQ) {
-					continue
-				}
-				for _, side := range []ssa.Value{bo.X, bo.Y} {
-					if u, ok := side.(*ssa.UnOp); ok {
-						if g, ok := u.X.(*ssa.Global); ok && g.Pkg != nil && g.Pkg.Pkg.Path() == "io" {
-							switch g.Name() {
-							case "EOF":
-								cmpEOF = true
-							case "ErrUnexpectedEOF":
-								cmpUEOF = true
-							}
-						}
-					}
-				}
-				// errors.Is(err, io.X)
 			}
 		}
-		for _, b := range fn.Blocks {
-			for _, in := range b.Instrs {
-				if call, ok := in.(*ssa.Call); ok {
-					if cf := call.Call.StaticCallee(); cf != nil && cf.Pkg != nil && cf.Pkg.Pkg.Path() == "errors" && cf.Name() == "Is" && len(call.Call.Args) == 2 {
-						if u, ok := call.Call.Args[1].(*ssa.UnOp); ok {
+		for _, body := range bodies {
+			for _, b := range body.Blocks {
+				for _, in := range b.Instrs {
+					bo, ok := in.(*ssa.BinOp)
+					if !ok || (bo.Op != token.EQL && bo.Op != token.NEQ) {
+						continue
+					}
+					for _, side := range []ssa.Value{bo.X, bo.Y} {
+						if u, ok := side.(*ssa.UnOp); ok {
 							if g, ok := u.X.(*ssa.Global); ok && g.Pkg != nil && g.Pkg.Pkg.Path() == "io" {
 								switch g.Name() {
 								case "EOF":
 									cmpEOF = true
 								case "ErrUnexpectedEOF":
 									cmpUEOF = true
+								}
+							}
+						}
+					}
+					// errors.Is(err, io.X)
+				}
+			}
+		}
+		for _, body := range bodies {
+			for _, b := range body.Blocks {
+				for _, in := range b.Instrs {
+					if call, ok := in.(*ssa.Call); ok {
+						if cf := call.Call.StaticCallee(); cf != nil && cf.Pkg != nil && cf.Pkg.Pkg.Path() == "errors" && cf.Name() == "Is" && len(call.Call.Args) == 2 {
+							if u, ok := call.Call.Args[1].(*ssa.UnOp); ok {
+								if g, ok := u.X.(*ssa.Global); ok && g.Pkg != nil && g.Pkg.Pkg.Path() == "io" {
+									switch g.Name() {
+									case "EOF":
+										cmpEOF = true
+									case "ErrUnexpectedEOF":
+										cmpUEOF = true
+									}
 								}
 							}
 						}
@@ -613,7 +637,7 @@ var rR16t = RuleRef{Name: "R16t", Doc: "sibling agreement of the WAL scanners: e
 }}
 
 // R17b: the glob matcher works on bytes.
-var rR17b = RuleRef{Name: "R17b", Doc: "the glob matcher is byte-wise: util.PattenMatch and the helpers it calls use no text library (unicode/utf8, strings, bytes, unicode, regexp, path): '?' and a set consume exactly one byte, whatever the bytes are", Run: func(c *C) {
+var rR17b = RuleRef{Name: "R17b", Doc: "the glob matcher is byte-wise: util.PattenMatch and the helpers it calls use nothing that decodes or maps runes (unicode, unicode/utf8, regexp, path; of strings/bytes the case-mapping, rune-searching and *Func functions, and cutset functions unless the cutset is a constant of ASCII characters): '?' and a set consume exactly one byte, whatever the bytes are", Run: func(c *C) {
 	pm := c.P.Func("util", "PattenMatch")
 	if pm == nil {
 		c.Undecided("R17b", "anchor util.PattenMatch")
@@ -637,8 +661,32 @@ var rR17b = RuleRef{Name: "R17b", Doc: "the glob matcher is byte-wise: util.Patt
 					continue
 				}
 				switch cf.Pkg.Pkg.Path() {
-				case "unicode/utf8", "strings", "bytes", "unicode", "regexp", "path", "path/filepath":
+				case "unicode/utf8", "unicode", "regexp", "path", "path/filepath":
 					bad = append(bad, c.pos(call.Pos())+": "+cf.String())
+				case "strings", "bytes":
+					// these packages also hold plain byte-sequence functions (Count, Index, HasPrefix, TrimLeft with an
+					// ASCII cutset ...): only the ones that decode or map runes make the matcher text-aware
+					switch cf.Name() {
+					case "ToLower", "ToUpper", "ToTitle", "Title", "EqualFold", "Map", "IndexRune", "ContainsRune", "IndexFunc", "LastIndexFunc",
+						"TrimFunc", "TrimLeftFunc", "TrimRightFunc", "FieldsFunc", "Fields", "ToValidUTF8", "Runes", "ToLowerSpecial", "ToUpperSpecial", "ContainsFunc":
+						bad = append(bad, c.pos(call.Pos())+": "+cf.String())
+					case "Trim", "TrimLeft", "TrimRight", "IndexAny", "LastIndexAny", "ContainsAny":
+						// a cutset is a set of runes: byte-wise only when it is a constant of ASCII characters
+						ascii := false
+						if len(call.Call.Args) == 2 {
+							if k, ok := constString(call.Call.Args[1]); ok {
+								ascii = true
+								for i := 0; i < len(k); i++ {
+									if k[i] >= 0x80 {
+										ascii = false
+									}
+								}
+							}
+						}
+						if !ascii {
+							bad = append(bad, c.pos(call.Pos())+": "+cf.String()+" with a cutset that is not a constant of ASCII characters")
+						}
+					}
 				}
 			}
 		}
